@@ -1,7 +1,7 @@
 SPECIFICATION MSpec
 CONSTANTS
-  KSet = {"spin", "once", "abool", "done", "barrier", "ref", "managed"}
-  Procs = {1}
+  KSet = {"spin", "once", "abool", "adur", "afloat", "done", "barrier", "ref", "managed"}
+  Procs = {1, 2}
   MaxOps = 6
   OneAtATime = TRUE
   Emit = TRUE
